@@ -89,9 +89,6 @@ __CPROVER_decreases(gv_n - IDX(i))
 //@ head str2xml 1
 const long gv_idx = IDX(i);
 const long gv_len_before = t.len;
-#ifdef GV_EXCL_QUOTES   /* exclusion predicate of the finding "apostrophe is written as &quot;": no input byte is an apostrophe */
-GV_INST(0 <= gv_idx && gv_idx < gv_n, gv_b[gv_idx] != '\'');
-#endif
 //@ tail str2xml 1
 #if GV_PART == 2
 /* per-character step, stated for EVERY iteration (the loop contract makes this iteration an arbitrary one) */
@@ -148,9 +145,6 @@ void h_roundtrip(void)
   w_n = (int)n;
   for (long k = 0; k < n; k++) {
     w_s[k] = s.buf[k];
-#ifdef GV_EXCL_QUOTES      /* exclusion predicate of the finding "apostrophe is written as &quot;" */
-    __CPROVER_assume(s.buf[k] != '\'');
-#endif
   }
   struct gv_str r = str2xml(&s);
   __CPROVER_assert(r.buf == outbuf && 0 <= r.len && r.len <= 6 * n, "result has at most 6 n bytes");
